@@ -26,6 +26,9 @@ pub enum Start {
     BuiltPara(Vec<(String, String)>, u8),
     /// Deb822::new() followed by k calls of add_paragraph(): k paragraphs without fields, filled by the history
     Added(usize),
+    /// a parsed document after Deb822::wrap_and_sort with Paragraph::wrap_and_sort(Spaces(1)) as paragraph function: the
+    /// live object returned by that call (its nodes were rebuilt, comments hang directly under the root)
+    Wrapped(String),
 }
 
 pub struct Case {
@@ -104,6 +107,15 @@ pub fn start_live(start: &Start) -> Result<(Live, Model), Failure> {
         Start::BuiltPara(pairs, how) => {
             let p = build_para(pairs, *how);
             Ok((Live { doc: None, standalone: Some(p), handles: vec![] }, vec![pairs.clone()]))
+        }
+        Start::Wrapped(text) => {
+            let d = Deb822::from_str(text).map_err(|e| Failure { assertion: "start-parses".into(), message: format!("well-formed start document rejected: {:?}", e.to_string()) })?;
+            let f = |p: &Paragraph| p.wrap_and_sort(deb822_lossless::Indentation::Spaces(1), false, None, None, None);
+            let w = d.wrap_and_sort(None, Some(&f));
+            let handles: Vec<Paragraph> = w.paragraphs().collect();
+            // the start model is what the live result reports (that reformatting keeps the content is C07's business)
+            let model: Model = w.paragraphs().map(|p| p.items().collect()).collect();
+            Ok((Live { doc: Some(w), standalone: None, handles }, model))
         }
         Start::Added(k) => {
             let mut d = Deb822::new();
@@ -335,7 +347,7 @@ impl PropImpl for C04 {
          with a comment, multi-line value, duplicate name or no final newline. Distinct by hash of (start, history).".into()
     }
     fn expected_labels(&self) -> Vec<&'static str> {
-        vec!["op:set-existing", "op:set-append", "op:insert", "op:remove-one", "op:remove-duplicates", "op:remove-absent", "op:rename-existing", "op:rename-absent", "start:parsed", "start:built-document", "start:built-paragraph", "start:new-document-with-added-empty-paragraphs", "start:has-comment", "start:no-final-newline", "start:duplicate-name", "uses-fresh-handles", "paragraph-emptied"]
+        vec!["op:set-existing", "op:set-append", "op:insert", "op:remove-one", "op:remove-duplicates", "op:remove-absent", "op:rename-existing", "op:rename-absent", "start:parsed", "start:built-document", "start:built-paragraph", "start:new-document-with-added-empty-paragraphs", "start:result-of-wrap-and-sort", "start:has-comment", "start:no-final-newline", "start:duplicate-name", "uses-fresh-handles", "paragraph-emptied"]
     }
     fn budget(&self, tier: Tier) -> Budget {
         Budget { cases_per_lane: if tier == Tier::Quick { 30000 } else { 120000 }, tape_max: 900, cpu_s: 10 }
@@ -387,7 +399,12 @@ impl PropImpl for C04 {
                 let o = doc::DocOpts { min_paras: 1, max_paras: 3, max_fields: 4, max_lines: 3, ..Default::default() };
                 let d: Doc = doc::gen_doc(t, &o);
                 let m = d.model();
-                (Start::Parsed(d.render().text), m)
+                if t.chance(1, 6) && !d.render().text.contains("\n#") && !d.render().text.starts_with('#') {
+                    // (comment-free, so that the start model is simply the document's model)
+                    (Start::Wrapped(d.render().text), m)
+                } else {
+                    (Start::Parsed(d.render().text), m)
+                }
             }
         };
         let mut ops = vec![];
@@ -434,6 +451,10 @@ impl PropImpl for C04 {
             Start::BuiltPara(p, _) => {
                 ctx.label("start:built-paragraph");
                 (p.iter().any(|x| x.1.contains('\n')), vec![p.clone()])
+            }
+            Start::Wrapped(t) => {
+                ctx.label("start:result-of-wrap-and-sort");
+                (true, scan(t).model())
             }
             Start::Added(k) => {
                 ctx.label("start:new-document-with-added-empty-paragraphs");
